@@ -20,7 +20,7 @@ inductive Kind where
   | nil | neverUsed
   | bool (b : Bool)
   | bin (lenBytes : Nat)      -- d.FieldRawLen("value", int64(d.FieldU<8·n>("length"))*8)
-  | ext (lenBytes : Nat)      -- extFn(8·n)  (reads an 8-bit length whatever n is — outside the model)
+  | ext (lenBytes : Nat)      -- extFn(8·n)  (reads an 8-bit length whatever n is: known finding msgpack-ext-length)
   | f32 | f64
   | uint (bytes : Nat)        -- d.FieldU<8·n>("value")
   | sint (bytes : Nat)        -- d.FieldS<8·n>("value")
@@ -80,6 +80,29 @@ def lenThen (mk : Bytes → V) (r : Res (Nat × Bytes)) : Res (V × Bytes) :=
     | .err e => .err e
     | .ok (x, r) => .ok (mk x, r)
 
+/-- `extFn(lengthBits)` (msgpack.go:84-90) AS IT IS: `lengthBits` is ignored, the length is always read with
+    `d.FieldU8("length")` (right for ext8 only; known finding `msgpack-ext-length`); then `d.FieldS8("fixtype")`
+    and `d.FieldRawLen("value", length*8)`, which `.value | tovalue` returns as the bytes they are -/
+def extFn (bs : Bytes) : Res (V × Bytes) :=
+  match readU 1 bs with
+  | .err e => .err e
+  | .ok (len, r) =>
+    match readN 1 r with
+    | .err e => .err e
+    | .ok (_, r1) =>
+      match readN len r1 with
+      | .err e => .err e
+      | .ok (x, r2) => .ok (.str x, r2)
+
+/-- fixext1..16: `d.FieldS8("fixtype"); d.FieldRawLen("value", n*8)` -/
+def fixextFn (n : Nat) (bs : Bytes) : Res (V × Bytes) :=
+  match readN 1 bs with
+  | .err e => .err e
+  | .ok (_, r1) =>
+    match readN n r1 with
+    | .err e => .err e
+    | .ok (x, r2) => .ok (.str x, r2)
+
 /-- a fixed-width scalar (`d.FieldU16("value")`, `d.FieldS32("value")`, `d.FieldF64("value")`, …) -/
 def scalar (n : Nat) (mk : Nat → V) (bs : Bytes) : Res (V × Bytes) :=
   match readU n bs with
@@ -98,8 +121,8 @@ def runKind (dec : Bytes → Res (V × Bytes)) (t : Nat) (bs : Bytes) : Kind →
   | .bool b => .ok (.bool b, bs)
   | .bin n => lenThen .bytes (readU n bs)
   | .str n => lenThen (fun x => .str (sanitizeX x)) (readU n bs)
-  | .ext _ => .err .unmodelled
-  | .fixext _ => .err .unmodelled
+  | .ext _ => extFn bs
+  | .fixext n => fixextFn n bs
   | .f32 => scalar 4 (fun p => .float (widen32 p)) bs
   | .f64 => scalar 8 .float bs
   | .uint n => scalar n (fun u => .int u) bs
@@ -138,7 +161,12 @@ inductive W where
   | bin (f : LenForm) (b : Bytes)
   | arr (f : LenForm) (xs : List W)
   | map (f : LenForm) (kvs : List (W × W))
+  | ext8 (ty : UInt8) (b : Bytes)                -- 0xc7 len8 type data   (ext16/ext32 are mis-decoded: not wire forms)
+  | fixext (ty : UInt8) (b : Bytes)              -- 0xd4..0xd8 type data, |data| ∈ {1,2,4,8,16}
 deriving Repr, Inhabited
+
+def fixextType (n : Nat) : Nat :=
+  if n = 1 then 0xd4 else if n = 2 then 0xd5 else if n = 4 then 0xd6 else if n = 8 then 0xd7 else 0xd8
 
 def intOk : IntForm → Int → Bool
   | .fix, i => decide (-32 ≤ i) && decide (i ≤ 127)
@@ -174,6 +202,8 @@ def valid : W → Bool
   | .bin f b => lenOk none true f b.length
   | .arr f xs => lenOk (some 15) false f xs.length && validL xs
   | .map f kvs => lenOk (some 15) false f kvs.length && validKV kvs && nodupB (keysOf kvs)
+  | .ext8 _ b => decide (b.length < 2^8)
+  | .fixext _ b => decide (b.length = 1 ∨ b.length = 2 ∨ b.length = 4 ∨ b.length = 8 ∨ b.length = 16)
 def validL : List W → Bool
   | [] => true
   | x :: xs => valid x && validL xs
@@ -197,6 +227,8 @@ def value : W → V
   | .bin _ b => .bytes b
   | .arr _ xs => .arr (valueL xs)
   | .map _ kvs => .map (valueKV kvs)
+  | .ext8 _ b => .str b                          -- `.value | tovalue` of a raw field: the bytes as they are
+  | .fixext _ b => .str b
 def valueL : List W → List V
   | [] => []
   | x :: xs => value x :: valueL xs
@@ -236,6 +268,8 @@ def encode : W → Bytes
   | .bin f b => encLen 0 0xc4 0xc5 0xc6 f b.length ++ b
   | .arr f xs => encLen 0x90 0 0xdc 0xdd f xs.length ++ encodeL xs
   | .map f kvs => encLen 0x80 0 0xde 0xdf f kvs.length ++ encodeKV kvs
+  | .ext8 ty b => byte 0xc7 :: (toBE 1 b.length ++ ty :: b)
+  | .fixext ty b => byte (fixextType b.length) :: ty :: b
 def encodeL : List W → Bytes
   | [] => []
   | x :: xs => encode x ++ encodeL xs
